@@ -249,13 +249,16 @@ func Gen17(t *rapid.T) Case17 {
 		c.Spelling = GenSpelling(t, "sp", true)
 	} else {
 		c.UseRaw = true
-		switch rapid.IntRange(0, 5).Draw(t, "rawKind") {
+		switch rapid.IntRange(0, 6).Draw(t, "rawKind") {
 		case 0:
 			c.Raw = B(gen.Mutate(t, "mut", gen.StartURL(t, "raw")))
 		case 1:
 			c.Raw = B(gen.Pick(t, "canonhostile", c17Hostile))
 		case 2:
 			c.Raw = B("http://h/p?" + genLongQuery(t))
+		case 3:
+			// names whose order as written, decoded and serialized differ (C16's generator), short and long
+			c.Raw = B(gen.Pick(t, "oqstart", []string{"http://h/p?", "foo://h/?", "a:b?"}) + genOrderQuery(t))
 		default:
 			c.Raw = B(gen.Input(t, "raw"))
 		}
